@@ -275,7 +275,7 @@ def run(chk):
          not any(c is y for y in ast.walk(ren))]
   ok = bool(imp)
   for c in imp:
-    third = c.args[2] if len(c.args) > 2 else None
+    third = f.expand(c.args[2], stop=('import_prefix',)) if len(c.args) > 2 else None
     if not (isinstance(third, ast.BinOp) and dotted(third.left) == 'import_prefix'):
       ok = False
   src = f.assigned_from('import_prefix')
@@ -287,16 +287,43 @@ def run(chk):
 
   rp = FnView(repo, 'parse.RenamePredicate')
   rets = rp.returns()
-  early = [r for n, r in rets if rp.cfg.reachable(n) - {n} - {rp.cfg.exit} or
-           any(isinstance(rp.cfg.stmt[h], (ast.If, ast.For, ast.While)) for h, pol in rp.cfg.header_of(n))]
+  # the only return is the last statement of the function body
+  early = [r for n, r in rets if r is not rp.fi.node.body[-1]]
   chk.ob('C12-R3', len(rets) == 1 and not early, None,
          'RenamePredicate walks the whole tree (no early exit)',
          'RenamePredicate can return before visiting every child (`%s`): nodes '
          'it skips keep the unprefixed name and collide across files' % (
              norm(early[0], 60) if early else 'several returns'), fi=rp.fi)
-  rec = [c for n, c in rp.all_calls() if call_tail(c) == 'RenamePredicate']
-  chk.ob('C12-R3', len(rec) >= 2, None, 'RenamePredicate recurses into dict values and list elements',
-         'the walker no longer descends into both dicts and lists', fi=rp.fi)
+  # for a dict and for a list, some path makes the recursive call on a child
+  # of the node (abstract interpretation; the test on the child is left open)
+  from sa.absint import Interp, State, Sym
+  import re as _re
+  param = rp.fi.params[0]
+  for kind in ('dict', 'list'):
+    def call(node, st, interp, kind=kind):
+      t = call_tail(node)
+      if t == 'isinstance' and len(node.args) == 2:
+        subj = interp.value(node.args[0], st)
+        if isinstance(subj, Sym) and subj.text == param:
+          names = {dotted(x) for x in ([node.args[1]] if not isinstance(node.args[1], ast.Tuple)
+                                        else node.args[1].elts)}
+          from sa.absint import Const
+          return Const(kind in names)
+      if t == 'RenamePredicate' and node.args:
+        a0 = interp.value(node.args[0], st)
+        st.effects.append(('rec', a0.text if isinstance(a0, Sym) else norm(node.args[0])))
+        return Sym('count')
+      return NotImplemented
+    it = Interp(rp.fi.node, dict(call=call, loop=lambda n, s: 'body'), max_paths=2000)
+    try:
+      outs = it.run(State(env={param: Sym(param)}))
+    except AnalysisError:
+      outs = []
+    hit = any(e[0] == 'rec' and _re.search(r'\b%s\b' % _re.escape(param), e[1])
+              for o in outs for e in o.state.effects)
+    chk.ob('C12-R3', hit, None, 'RenamePredicate recurses into the children of a %s' % kind,
+           'for a %s node no path makes the recursive call on its children: '
+           'predicate names below it keep the unprefixed name' % kind, fi=rp.fi)
 
   chk.rule('C12-R4', 'import diagnostics: undefined import, unused import, '
            'override of an imported predicate, missing file each raise '
